@@ -114,12 +114,12 @@ def plan(ctx, scale=1.0):
     shapes = ['fan_out', 'chain', 'fan_in', 'layers', 'ladder', 'groups']      # every shape in every tier
     for i in range(n_big_t):
         big.append((rng.randrange(1 << 60), {'runner': 'thread', 'gen_policy': True,
-                                              'scale': {'n_min': 50, 'n_max': hi, 'shape': shapes[i % 6]}}))
+                                              'bigcase': {'n_min': 50, 'n_max': hi, 'shape': shapes[i % 6]}}))
     for i in range(n_big_s):
         big.append((rng.randrange(1 << 60), {'runner': 'serial',
-                                              'scale': {'n_min': 50, 'n_max': hi, 'shape': shapes[(i + 5) % 6]}}))
+                                              'bigcase': {'n_min': 50, 'n_max': hi, 'shape': shapes[(i + 5) % 6]}}))
     pool += [{'prop': PROP, 'gen': big[i:i + 3], 'shrink_s': 10.0} for i in range(0, len(big), 3)]
-    bigp = [(rng.randrange(1 << 60), {'runner': 'process', 'scale': {'n_min': 50, 'n_max': 80 if quick else 120}})
+    bigp = [(rng.randrange(1 << 60), {'runner': 'process', 'bigcase': {'n_min': 50, 'n_max': 80 if quick else 120}})
             for _ in range(n_big_p)]
     return pool, ([{'prop': PROP, 'gen': procs[i:i + 6], 'shrink_s': 10.0} for i in range(0, len(procs), 6)] +
                   [{'prop': PROP, 'gen': bigp[i:i + 2], 'shrink_s': 10.0} for i in range(0, len(bigp), 2)])
